@@ -195,6 +195,46 @@ def check_stream(ctx, c, out):
 
 NEEDS_FRONTENDS = True
 
+# documents that fail late (after the first output bytes exist), fail early, or succeed: what runs before on the same thread
+PRELUDES = ['<!-- my diagram -->\n<svg width="wide"><rect wh="10"/></svg>', '<?xml version="1.0"?>\n<svg height="1 2"><rect wh="10" text="t"/></svg>',
+            'leading text <svg width="x"><rect wh="3"/></svg>', '\n<svg width=""><circle r="3"/></svg>', '<svg><rect xy="#nowhere|h" wh="2"/></svg>', '<svg><rect wh="{{1 +}}"/></svg>',
+            '<svg><config seed="5" font-size="7" theme="dark"/><var k="9"/><rect id="a" wh="4" text="{{random()}}" class="d-text-small d-red"/></svg>',
+            '<svg><defaults><rect rx="2"/></defaults><specs><g id="t"><rect wh="$w"/></g></specs><reuse href="#t" w="3"/></svg>']
+
+
+def same_thread_history(ctx):
+    """The string API called several times on ONE thread (as an embedding application or a server worker does): a transform
+    after failing / state-leaving ones returns what it returns alone."""
+    acc = ctx.acc
+    rng = ctx.rng("thread-history")
+    for j in range(60 if ctx.quick() else 1500):
+        if ctx.out_of_time():
+            break
+        text, cfg, feats, nt = gen_case(rng)
+        if cfg and cfg.get("local"):
+            continue
+        target = text.encode("utf-8")
+        if b"\x1e" in target:
+            continue
+        alone = ctx.run(target, cfg, api="strseq")
+        hist = [rng.choice(PRELUDES).encode() for _ in range(rng.randint(1, 4))]
+        if rng.random() < 0.3:
+            hist.append(target)
+        after = ctx.run(b"\x1e".join(hist + [target]), cfg, api="strseq")
+        acc.cases += 1
+        a, b = norm(alone, False), norm(after, False)
+        if a[0] not in ("ok", "err") or b[0] not in ("ok", "err"):
+            acc.count("crashed(C01's business)")
+            continue
+        acc.nontriv(core.chash("thread-history", target, core.encode_cfg(cfg), len(hist)), ["history.same-thread", "history.len%d" % len(hist)])
+        if a != b:
+            from .c05 import diff_class
+            where = ("/" + diff_class(a[1], b[1])[0]) if a[0] == b[0] == "ok" else ""
+            acc.violation("nondeterministic", "nondet:same-thread-history/%s-vs-%s%s" % (a[0], b[0], where),
+                          dict(kind="thread-history", input=target, cfg=cfg, history=hist),
+                          observed=dict(after_history=core.trunc(b[1], 500)), expected=dict(alone=core.trunc(a[1], 500)),
+                          what="transform_str on a thread that ran %d other transform(s) before returns something else than on a fresh thread" % len(hist))
+
 
 def cli_delivery(ctx):
     """The svgdx command reading its input from a pipe: the same bytes, delivered in one write, in bursts with pauses, or a few
@@ -258,6 +298,12 @@ def deliver_and_compare(ctx, data, ref, name, chunks):
 
 
 def check_case(ctx, case):
+    if case.get("kind") == "thread-history":
+        alone = ctx.run(case["input"], case.get("cfg"), api="strseq")
+        after = ctx.run(b"\x1e".join(list(case["history"]) + [case["input"]]), case.get("cfg"), api="strseq")
+        if norm(alone, False) != norm(after, False):
+            ctx.acc.violation("nondeterministic", "nondet:same-thread-history", case, observed=core.trunc(norm(after, False)[1], 500), expected=core.trunc(norm(alone, False)[1], 500))
+        return
     if case.get("kind") == "cli-delivery":
         from . import frontends
         data, chunks, at = case["input"], [], 0
@@ -305,6 +351,7 @@ def run_shard(ctx):
                 ncls = len(set(re.findall(r"d-[a-z-]+(?:-\d+)?", t)))
                 batch.append(dict(input=t.encode("utf-8"), cfg=cfg, feats=["corpus"], nontrivial=(ncls >= 2 or "rand" in t)))
         run_batch(ctx, workers, batch)
+        same_thread_history(ctx)
         cli_delivery(ctx)
     finally:
         for w in workers[1:]:
